@@ -537,6 +537,18 @@ func execLife(o *Out, id, line string) {
 		}
 		buf := make([]byte, 37)
 		var e error
+		if kv["seek"] != "" {
+			// Seek to an offset (usually strictly inside a chunk) and let the source fail on its
+			// (after+1)-th Read from there on: a failure while the Reader skips forward to the target
+			// must come back verbatim like any other
+			off, _ := strconv.ParseInt(kv["seek"], 10, 64)
+			after, _ := strconv.Atoi(kv["after"])
+			if _, se := xr.Seek(off, io.SeekStart); se != nil {
+				o.Emit(id, line, "", "seek="+errClass(se), "lxs-seek"+kv["seek"])
+				return
+			}
+			src.okCalls = after
+		}
 		for i := 0; i < 100000 && e == nil; i++ {
 			_, e = xr.Read(buf)
 		}
@@ -973,6 +985,22 @@ func genLife(r *Rand, tier string, emit func(string)) {
 		for k := 0; k <= 14; k++ {
 			for _, tag := range []int{9, 100} {
 				emit(fmt.Sprintf("lxs okcalls=%d etag=%d stream=%s", k, tag, p.streams[k%len(p.streams)]))
+			}
+		}
+		// the same after a Seek into the data: the source is fine while the stream is opened and
+		// fails on the first / second / third Read after the Seek
+		for i, st := range p.streams {
+			pl := 0
+			if i < len(p.plains) && p.plains[i] != "?" {
+				pl = len(p.plains[i]) / 2
+			}
+			for _, off := range []int{1, 3, pl / 2, pl - 1} {
+				if off <= 0 {
+					continue
+				}
+				for after := 0; after <= 2; after++ {
+					emit(fmt.Sprintf("lxs okcalls=1000 seek=%d after=%d etag=%d stream=%s", off, after, []int{9, 100}[after%2], st))
+				}
 			}
 		}
 	}
